@@ -27,6 +27,7 @@ def gen_history(tier, seed):
         lines.append("dim $6 D:a:a2:i:i1,i2,i3")              # same letter as a, other items (3)
         lines.append("dim $7 D:t:time:i:i2000,i2001,i2002")
         lines.append("dim $8 D:t:time:i:i2000,i2001,i2002,i2003")
+        lines.append("dim $9 D:t:time:i:i2010,i2011,i2012")   # same name, letter and length as $7, other items
         for k, (l, (sl, tok)) in enumerate(SUB.items()):
             lines.append(f"dim ${90 + k} {tok}")
         subh = {l: 90 + k for k, l in enumerate(SUB)}
@@ -60,7 +61,10 @@ def gen_history(tier, seed):
         def new_arr(ls, bad_shape=False):
             d = new_dset(ls)
             h = nxt[1]; nxt[1] += 1
-            if bad_shape:
+            if bad_shape and not ls:
+                # an array without dimensions holds one number of shape (): (1,) and (1, 1) are other shapes
+                lines.append(f"arr ${h} ${d} {r.choice(['1', '1,1'])} {vals(1)}")
+            elif bad_shape:
                 wrong = list(ls)[::-1] + ["e"]
                 lines.append(f"arr ${h} ${d} {shape(wrong)} {vals(size(wrong))}".rstrip())
             else:
@@ -160,6 +164,8 @@ def gen_history(tier, seed):
                         i = r.randrange(len(lens)); lens[i] = 1
                     elif variant == "drop" and lens:
                         lens = lens[r.randint(1, len(lens)):]
+                    elif not lens:
+                        lens = r.choice([[1], [1, 1]])        # one number, but not of shape ()
                     else:
                         lens = []
                     cnt_ = 1
@@ -179,7 +185,7 @@ def gen_history(tier, seed):
                 base = r.choice([[7, 1], [7], [1, 7], [8, 1], [0, 1]])
                 hb = nxt[0]; nxt[0] += 1
                 lines.append(f"dset ${hb} " + " ".join(f"${x}" for x in base))
-                other = r.choice([[7, 1], [8, 1], [1, 7], [7], [7, 1]])
+                other = r.choice([[7, 1], [8, 1], [1, 7], [7], [7, 1], [9, 1], [9]])
                 ho = nxt[0]; nxt[0] += 1
                 lines.append(f"dset ${ho} " + " ".join(f"${x}" for x in other))
                 ha = nxt[1]; nxt[1] += 1
